@@ -44,7 +44,7 @@ def helper_workers():
 @st.composite
 def schedule_case(draw):
     cfg = draw(gen.e2e_config(front=("single", "single", "joint"), max_N=3, max_W=4, max_K=4, t_range=(30, 70), limits=(1, 2, 3, 5),
-                              betas=(0.0, 0.5, 2.0, 10.0, 100.0), lam_forms=("scalar", "const_matrix")))
+                              betas=(0.0, 0.5, 2.0, 10.0, 100.0), lam_forms=("scalar", "const_matrix"), allow_degenerate=True))
     nvar = draw(st.integers(1, 3))
     variants = []
     for _ in range(nvar):
@@ -248,9 +248,45 @@ def _plain_run_mp_off(cfg, timeout):
             os.environ["CUPCAKE_ENABLE_MULTIPROCESSING"] = saved
 
 
+def _large_cases(tier):
+    base = {"front": "joint", "N": 3, "W": 80, "K": 2, "lengths": [420, 400], "regimes": 2, "mean_spread": 4.0, "data_seed": 11,
+            "np_seed": 11, "py_seed": 11, "beta": 50.0, "beta_form": "scalar", "lam": 0.11, "lam_form": "scalar", "limit": 1,
+            "m": 5, "biased": False, "eps": 0, "num_processors": 1, "boundary_regime_flip": False}
+    yield dict(base, worker_counts=[4, 2])
+    yield dict(base, front="single", N=4, W=60, lengths=[700], data_seed=12, worker_counts=[8, 3])
+    if tier == "thorough":
+        yield dict(base, N=6, W=50, lengths=[500, 480], data_seed=13, worker_counts=[2, 5, 16])
+
+
+def execute_large(case, t):
+    """Matrices large enough (NW = 240 ... 300) for a multi-threaded BLAS to choose other kernels: the result with the library's
+    pool of w workers must be the bits of the single-process result, whatever w is."""
+    cfg = {k: v for k, v in case.items() if k != "worker_counts"}
+    tr0, left, to = plain_run(cfg, 1, 1200.0, t)
+    _reap(left)
+    if to or not tr0.ok:
+        t.discard("the single-process run did not complete")
+    d0 = _digest_of(tr0)
+    for w in case["worker_counts"]:
+        tr, left, to = plain_run(dict(cfg, num_processors=w), w, 1200.0, t)
+        _reap(left)
+        if to:
+            raise Violation(f"run with {w} workers (NW={cfg['N'] * cfg['W']}) did not return")
+        if not tr.ok:
+            raise Violation(f"run with {w} workers raised {type(tr.exc).__name__}: {str(tr.exc)[:100]}; with one process it completes")
+        if _digest_of(tr) != d0:
+            diff = max(float(np.max(np.abs(np.asarray(a) - np.asarray(b)))) for a, b in zip(tr.result.markov_random_fields, tr0.result.markov_random_fields))
+            raise Violation(f"result depends on the number of worker processes: {w} workers give other bits than one process "
+                            f"(NW={cfg['N'] * cfg['W']}, largest MRF difference {diff:.3g})")
+        t.cls(f"workers_{w}")
+    t.mark_nontrivial({"NW": cfg["N"] * cfg["W"], "worker_counts": case["worker_counts"]})
+
+
 SUBCHECKS = [
     SubCheck(name="schedules_histories_hashseeds", strategy=schedule_case, execute=execute,
              budget={"quick": 48, "thorough": 800}, shards={"quick": 16, "thorough": 16},
              modes={"quick": ["nojit"], "thorough": ["nojit", "jit"]}, min_nontrivial_fraction=0.3,
              shrink={"quick": False, "thorough": True}),
+    SubCheck(name="worker_count_independence_large_matrices", enumerate=_large_cases, execute=execute_large, exhaustive=False,
+             budget={"quick": 1, "thorough": 1}, shards={"quick": 2, "thorough": 3}, modes=["jit"], ambient=()),
 ]
